@@ -59,10 +59,16 @@ func checkBehaviour(t *fw.T, src string, layout string, cfgs []Cfg) {
 			c := c
 			var code, codeMap string
 			ok := t.Guard("compile "+c.String(), func() map[string]any { w := wit(); w["config"] = c.String(); return w }, func() {
-				code = c.Compile(po.Prog).Code
 				cm := c
 				cm.Map = true
-				codeMap = cm.Compile(po.Prog).Code
+				if (t.Index/16)%2 == 1 {
+					// every second group of cases compiles with this worker's long-lived Compiler values
+					code = c.CompileReused(po.Prog).Code
+					codeMap = cm.CompileReused(po.Prog).Code
+				} else {
+					code = c.Compile(po.Prog).Code
+					codeMap = cm.Compile(po.Prog).Code
+				}
 			})
 			if !ok {
 				continue
